@@ -323,6 +323,7 @@ func TestC13HostBinds(t *testing.T) {
 		defer pc.Close() //nolint:errcheck
 
 		var open []*bsock
+		var closedSocks []*bsock
 		nextID := 0
 		closedOnce := map[string]bool{} // "ip:port" closed before
 		covers := func(s *bsock, ip string, port int) bool {
@@ -623,6 +624,14 @@ func TestC13HostBinds(t *testing.T) {
 					ip = "0.0.0.0"
 				}
 				bind(how, ip, rapid.SampledFrom(ports).Draw(t, "port"))
+			case op < 50 && len(closedSocks) > 0:
+				// closing an already closed socket again (a deferred Close after an explicit
+				// one) must not disturb whoever holds the address now
+				s := closedSocks[rapid.IntRange(0, len(closedSocks)-1).Draw(t, "again")]
+				_ = s.conn.Close()
+				c.Op("close-again %s:%d", s.ip, s.port)
+				c.Label("close-again")
+				t.Logf("close again %s:%d", s.ip, s.port)
 			case op < 65 && len(open) > 0:
 				k := rapid.IntRange(0, len(open)-1).Draw(t, "which")
 				s := open[k]
@@ -630,6 +639,7 @@ func TestC13HostBinds(t *testing.T) {
 					t.Fatalf("C13: Close of %s:%d: %v", s.ip, s.port, err)
 				}
 				closedOnce[fmt.Sprintf("%s:%d", s.ip, s.port)] = true
+				closedSocks = append(closedSocks, s)
 				open = append(open[:k:k], open[k+1:]...)
 				indexLen = -1
 				c.Op("close %s:%d", s.ip, s.port)
